@@ -395,6 +395,27 @@ def read_error_cases():
     return out
 
 
+def signed_battery_cases():
+    """signed power_supply values, one quantity at a time (fuel gauges: negative current while discharging, tte = -1)"""
+    out = []
+    forms = ["-1000000", "+1000000", " 1000000 ", "\t1000000", "0", "-0", "+0", "-12000000", " -1000000 ", "-1"]
+    for which in ("power0", "power1", "now0", "full1", "tte"):
+        for v in forms:
+            for st in ("StDischarging", "StCharging", None):
+                bat = {"now": [["P", "3000000"], ["A"]], "power": [["P", "1000000"], ["A"]], "full": [["A"], ["P", "4000000"]],
+                       "tte": ["A"], "capacity": ["P", "75"], "status": ["P", st] if st else ["A"]}
+                if which == "tte":
+                    bat["tte"] = ["P", v]
+                    bat["power"] = [["A"], ["A"]]
+                else:
+                    k, i = which[:-1], int(which[-1])
+                    bat[k] = [["A"], ["A"]]
+                    bat[k][i] = ["P", v]
+                out.append({"kind": "battery", "cls": "battery-signed", "dir": True, "entries": [{"name": "BAT0", "bat": bat}],
+                            "ac0": ["A"], "ac": ["A"]})
+    return out
+
+
 def kdec(rng, pool, p=0.6, pe=0.05):
     r = rng.random()
     if r < p:
@@ -402,7 +423,20 @@ def kdec(rng, pool, p=0.6, pe=0.05):
     return unreadable(rng) if r < p + pe else ["A"]
 
 
-def gen_alt(rng, p=0.6):
+SIGNED_POWER = ["-12000000", "-1000000", "-1", "+1000000", " 12000000 ", "\t7", "-0", "0", "+0", " -3600000\t", "-57000000"]
+SIGNED_OTHER = ["+36000000", " 4000000 ", "0", "-0", "\t57000000", "+0", "3000000 "]
+
+
+def gen_alt(rng, p=0.6, signed=None):
+    a = gen_alt_plain(rng, p)
+    if signed:
+        for x in a:
+            if x[0] == "P" and rng.random() < (0.45 if signed is SIGNED_POWER else 0.15):
+                x[1] = rng.choice(signed)
+    return a
+
+
+def gen_alt_plain(rng, p=0.6):
     m = rng.random()
     if m < 0.35:
         return [kdec(rng, MICRO, 1.0), ["A"]]
@@ -415,8 +449,8 @@ def gen_bat(rng):
     st = rng.random()
     status = ["P", rng.choice(["StDischarging", "StCharging", "StFull", "StNotCharging", "StUnknown"])] if st < 0.75 else (
         ["A"] if st < 0.93 else unreadable(rng))
-    return {"now": gen_alt(rng), "power": gen_alt(rng), "full": gen_alt(rng),
-            "tte": kdec(rng, ["0", "5", "120"], 0.12, 0.02), "capacity": kdec(rng, ["0", "1", "55", "88", "100"], 0.5),
+    return {"now": gen_alt(rng, signed=SIGNED_OTHER), "power": gen_alt(rng, signed=SIGNED_POWER), "full": gen_alt(rng, signed=SIGNED_OTHER),
+            "tte": kdec(rng, ["0", "5", "120", "-1", "-1", " -1 ", "+7"], 0.2, 0.02), "capacity": kdec(rng, ["0", "1", "55", "88", "100"], 0.5),
             "status": status}
 
 
@@ -649,6 +683,7 @@ def gen_cases(rng, tier):
     cases = []
     cases += both_nestings_cases()
     cases += read_error_cases()
+    cases += signed_battery_cases()
     cases += rename_history_cases(rng, {"quick": 20, "thorough": 200, "search": 20}[tier])
     if tier == "quick":
         cases += single_sensor_cases()
